@@ -1,6 +1,9 @@
 // Copyright 2013 The Go Authors. All rights reserved.
 // Use of this source code is governed by a BSD-style
 // license that can be found in the LICENSE file.
+//
+// Derived from golang.org/x/tools/go/ssa/interp (v0.29.0); extended with
+// symbolic values for the gosym engine.
 
 package interp
 
@@ -9,43 +12,34 @@ package interp
 // All interpreter values are "boxed" in the empty interface, value.
 // The range of possible dynamic types within value are:
 //
-// - bool
-// - numbers (all built-in int/float/complex types are distinguished)
-// - string
-// - map[value]value --- maps for which  usesBuiltinMap(keyType)
-//   *hashmap        --- maps for which !usesBuiltinMap(keyType)
-// - chan value
+// - bool, numbers, string (concrete Go values)
+// - *sym.Term --- a symbolic bool (sort Bool) or integer (sort BitVec w)
+// - *FV       --- a symbolic float (extended real, see symfloat.go)
+// - sstr      --- a string with at least one symbolic byte (concrete length)
+// - *omap     --- maps
+// - *channel  --- channels
 // - []value --- slices
 // - iface --- interfaces.
-// - structure --- structs.  Fields are ordered and accessed by numeric indices.
+// - structure --- structs.
 // - array --- arrays.
-// - *value --- pointers.  Careful: *value is a distinct type from *array etc.
-// - *ssa.Function \
-//   *ssa.Builtin   } --- functions.  A nil 'func' is always of type *ssa.Function.
-//   *closure      /
+// - *value --- pointers.
+// - *ssa.Function, *ssa.Builtin, *closure --- functions.
 // - tuple --- as returned by Return, Next, "value,ok" modes, etc.
 // - iter --- iterators from 'range' over map or string.
 // - bad --- a poison pill for locals that have gone out of scope.
-// - rtype -- the interpreter's concrete implementation of reflect.Type
 // - **deferred -- the address of a frame's defer stack for a Defer._Stack.
-//
-// Note that nil is not on this list.
-//
-// Pay close attention to whether or not the dynamic type is a pointer.
-// The compiler cannot help you since value is an empty interface.
 
 import (
 	"bytes"
 	"fmt"
 	"go/types"
-	"io"
-	"reflect"
-	"strings"
-	"sync"
+	"unicode/utf8"
 	"unsafe"
 
 	"golang.org/x/tools/go/ssa"
 	"golang.org/x/tools/go/types/typeutil"
+
+	"gosym/sym"
 )
 
 type value interface{}
@@ -61,10 +55,12 @@ type iface struct {
 
 type structure []value
 
+// sstr is a string containing symbolic bytes; elements are uint8 or *sym.Term (BV8).
+type sstr []value
+
 // For map, array, *array, slice, string or channel.
 type iter interface {
 	// next returns a Tuple (key, value, ok).
-	// key and value are unaliased, e.g. copies of the sequence element.
 	next() tuple
 }
 
@@ -75,99 +71,65 @@ type closure struct {
 
 type bad struct{}
 
-type rtype struct {
-	t types.Type
-}
+// nativeErr wraps an opaque error produced by a model (fmt.Errorf with symbolic operands etc.)
+type opaque struct{ what string }
 
-// Hash functions and equivalence relation:
+var hasher = typeutil.MakeHasher()
 
-// hashString computes the FNV hash of s.
-func hashString(s string) int {
-	var h uint32
-	for i := 0; i < len(s); i++ {
-		h ^= uint32(s[i])
-		h *= 16777619
-	}
-	return int(h)
-}
-
-var (
-	mu     sync.Mutex
-	hasher = typeutil.MakeHasher()
-)
-
-// hashType returns a hash for t such that
-// types.Identical(x, y) => hashType(x) == hashType(y).
-func hashType(t types.Type) int {
-	return int(hasher.Hash(t))
-}
-
-// usesBuiltinMap returns true if the built-in hash function and
-// equivalence relation for type t are consistent with those of the
-// interpreter's representation of type t.  Such types are: all basic
-// types (bool, numbers, string), pointers and channels.
-//
-// usesBuiltinMap returns false for types that require a custom map
-// implementation: interfaces, arrays and structs.
-//
-// Panic ensues if t is an invalid map key type: function, map or slice.
-func usesBuiltinMap(t types.Type) bool {
-	switch t := t.(type) {
-	case *types.Basic, *types.Chan, *types.Pointer:
+func isSym(v value) bool {
+	switch v.(type) {
+	case *sym.Term, *FV, sstr:
 		return true
-	case *types.Named, *types.Alias:
-		return usesBuiltinMap(t.Underlying())
-	case *types.Interface, *types.Array, *types.Struct:
-		return false
 	}
-	panic(fmt.Sprintf("invalid map key type: %T", t))
+	return false
 }
 
-func (x array) eq(t types.Type, _y interface{}) bool {
-	y := _y.(array)
-	tElt := t.Underlying().(*types.Array).Elem()
-	for i, xi := range x {
-		if !equals(tElt, xi, y[i]) {
-			return false
+// strBytes returns the bytes of a string value (concrete or symbolic).
+func strBytes(v value) []value {
+	switch s := v.(type) {
+	case string:
+		out := make([]value, len(s))
+		for i := 0; i < len(s); i++ {
+			out[i] = s[i]
+		}
+		return out
+	case sstr:
+		return []value(s)
+	}
+	panic(fmt.Sprintf("strBytes: %T", v))
+}
+
+func strLen(v value) int {
+	switch s := v.(type) {
+	case string:
+		return len(s)
+	case sstr:
+		return len(s)
+	}
+	panic(fmt.Sprintf("strLen: %T", v))
+}
+
+// mkStr builds a string value from bytes, normalising to a Go string when concrete.
+func mkStr(b []value) value {
+	conc := true
+	for _, x := range b {
+		if _, ok := x.(uint8); !ok {
+			conc = false
+			break
 		}
 	}
-	return true
-}
-
-func (x array) hash(t types.Type) int {
-	h := 0
-	tElt := t.Underlying().(*types.Array).Elem()
-	for _, xi := range x {
-		h += hash(t, tElt, xi)
-	}
-	return h
-}
-
-func (x structure) eq(t types.Type, _y interface{}) bool {
-	y := _y.(structure)
-	tStruct := t.Underlying().(*types.Struct)
-	for i, n := 0, tStruct.NumFields(); i < n; i++ {
-		if f := tStruct.Field(i); !f.Anonymous() {
-			if !equals(f.Type(), x[i], y[i]) {
-				return false
-			}
+	if conc {
+		bs := make([]byte, len(b))
+		for i, x := range b {
+			bs[i] = x.(uint8)
 		}
+		return string(bs)
 	}
-	return true
+	out := make(sstr, len(b))
+	copy(out, b)
+	return out
 }
 
-func (x structure) hash(t types.Type) int {
-	tStruct := t.Underlying().(*types.Struct)
-	h := 0
-	for i, n := 0, tStruct.NumFields(); i < n; i++ {
-		if f := tStruct.Field(i); !f.Anonymous() {
-			h += hash(t, f.Type(), x[i])
-		}
-	}
-	return h
-}
-
-// nil-tolerant variant of types.Identical.
 func sameType(x, y types.Type) bool {
 	if x == nil {
 		return y == nil
@@ -175,239 +137,285 @@ func sameType(x, y types.Type) bool {
 	return y != nil && types.Identical(x, y)
 }
 
-func (x iface) eq(t types.Type, _y interface{}) bool {
-	y := _y.(iface)
-	return sameType(x.t, y.t) && (x.t == nil || equals(x.t, x.v, y.v))
-}
+// ---------------------------------------------------------------- equality
 
-func (x iface) hash(outer types.Type) int {
-	return hashType(x.t)*8581 + hash(outer, x.t, x.v)
-}
-
-func (x rtype) hash(_ types.Type) int {
-	return hashType(x.t)
-}
-
-func (x rtype) eq(_ types.Type, y interface{}) bool {
-	return types.Identical(x.t, y.(rtype).t)
-}
-
-// equals returns true iff x and y are equal according to Go's
-// linguistic equivalence relation for type t.
-// In a well-typed program, the dynamic types of x and y are
-// guaranteed equal.
-func equals(t types.Type, x, y value) bool {
+// equals returns x == y as a concrete bool or a *sym.Term.
+func (i *interpreter) equals(t types.Type, x, y value) value {
 	switch x := x.(type) {
 	case bool:
+		if yt, ok := y.(*sym.Term); ok {
+			return i.ctx.Eq(i.ctx.BoolC(x), yt)
+		}
 		return x == y.(bool)
-	case int:
-		return x == y.(int)
-	case int8:
-		return x == y.(int8)
-	case int16:
-		return x == y.(int16)
-	case int32:
-		return x == y.(int32)
-	case int64:
-		return x == y.(int64)
-	case uint:
-		return x == y.(uint)
-	case uint8:
-		return x == y.(uint8)
-	case uint16:
-		return x == y.(uint16)
-	case uint32:
-		return x == y.(uint32)
-	case uint64:
-		return x == y.(uint64)
-	case uintptr:
-		return x == y.(uintptr)
+	case int, int8, int16, int32, int64, uint, uint8, uint16, uint32, uint64, uintptr:
+		if yt, ok := y.(*sym.Term); ok {
+			return simp(i.ctx.Eq(i.lift(x), yt))
+		}
+		return x == y
 	case float32:
+		if yf, ok := y.(*FV); ok {
+			return simp(i.fEq(i.liftF(float64(x)), yf))
+		}
 		return x == y.(float32)
 	case float64:
+		if yf, ok := y.(*FV); ok {
+			return simp(i.fEq(i.liftF(x), yf))
+		}
 		return x == y.(float64)
+	case *FV:
+		return simp(i.fEq(x, i.toFV(y)))
+	case *sym.Term:
+		return simp(i.ctx.Eq(x, i.lift(y)))
 	case complex64:
 		return x == y.(complex64)
 	case complex128:
 		return x == y.(complex128)
 	case string:
-		return x == y.(string)
+		if ys, ok := y.(string); ok {
+			return x == ys
+		}
+		return i.strEq(x, y)
+	case sstr:
+		return i.strEq(x, y)
 	case *value:
 		return x == y.(*value)
-	case chan value:
-		return x == y.(chan value)
+	case *channel:
+		return x == y.(*channel)
+	case *omap:
+		return x == y.(*omap)
+	case unsafe.Pointer:
+		return x == y.(unsafe.Pointer)
 	case structure:
-		return x.eq(t, y)
-	case array:
-		return x.eq(t, y)
-	case iface:
-		return x.eq(t, y)
-	case rtype:
-		return x.eq(t, y)
-	}
-
-	// Since map, func and slice don't support comparison, this
-	// case is only reachable if one of x or y is literally nil
-	// (handled in eqnil) or via interface{} values.
-	panic(fmt.Sprintf("comparing uncomparable type %s", t))
-}
-
-// Returns an integer hash of x such that equals(x, y) => hash(x) == hash(y).
-// The outer type is used only for the "unhashable" panic message.
-func hash(outer, t types.Type, x value) int {
-	switch x := x.(type) {
-	case bool:
-		if x {
-			return 1
+		ys := y.(structure)
+		tStruct := t.Underlying().(*types.Struct)
+		var acc value = true
+		for k, n := 0, tStruct.NumFields(); k < n; k++ {
+			if f := tStruct.Field(k); f.Name() != "_" {
+				acc = i.and(acc, i.equals(f.Type(), x[k], ys[k]))
+				if acc == false {
+					return false
+				}
+			}
 		}
-		return 0
-	case int:
-		return x
-	case int8:
-		return int(x)
-	case int16:
-		return int(x)
-	case int32:
-		return int(x)
-	case int64:
-		return int(x)
-	case uint:
-		return int(x)
-	case uint8:
-		return int(x)
-	case uint16:
-		return int(x)
-	case uint32:
-		return int(x)
-	case uint64:
-		return int(x)
-	case uintptr:
-		return int(x)
-	case float32:
-		return int(x)
-	case float64:
-		return int(x)
-	case complex64:
-		return int(real(x))
-	case complex128:
-		return int(real(x))
-	case string:
-		return hashString(x)
-	case *value:
-		return int(uintptr(unsafe.Pointer(x)))
-	case chan value:
-		return int(uintptr(reflect.ValueOf(x).Pointer()))
-	case structure:
-		return x.hash(t)
+		return acc
 	case array:
-		return x.hash(t)
+		ya := y.(array)
+		tElt := t.Underlying().(*types.Array).Elem()
+		var acc value = true
+		for k := range x {
+			acc = i.and(acc, i.equals(tElt, x[k], ya[k]))
+			if acc == false {
+				return false
+			}
+		}
+		return acc
 	case iface:
-		return x.hash(t)
-	case rtype:
-		return x.hash(t)
+		yi := y.(iface)
+		if !sameType(x.t, yi.t) {
+			return false
+		}
+		if x.t == nil {
+			return true
+		}
+		return i.equals(x.t, x.v, yi.v)
+	case *opaque:
+		yo, ok := y.(*opaque)
+		return ok && x == yo
 	}
-	panic(fmt.Sprintf("unhashable type %v", outer))
+	panic(targetPanic{i.rtErr(fmt.Sprintf("comparing uncomparable type %s", t))})
 }
 
-// reflect.Value struct values don't have a fixed shape, since the
-// payload can be a scalar or an aggregate depending on the instance.
-// So store (and load) can't simply use recursion over the shape of the
-// rhs value, or the lhs, to copy the value; we need the static type
-// information.  (We can't make reflect.Value a new basic data type
-// because its "structness" is exposed to Go programs.)
+func (i *interpreter) strEq(x, y value) value {
+	xb, yb := strBytes(x), strBytes(y)
+	if len(xb) != len(yb) {
+		return false
+	}
+	var acc value = true
+	for k := range xb {
+		acc = i.and(acc, i.equals(nil, xb[k], yb[k]))
+		if acc == false {
+			return false
+		}
+	}
+	return acc
+}
+
+// simp converts constant terms back to concrete bools.
+func simp(t *sym.Term) value {
+	if t.IsConst() && t.Sort.K == sym.KBool {
+		return t.U == 1
+	}
+	return t
+}
+
+func (i *interpreter) toBoolTerm(v value) *sym.Term {
+	switch v := v.(type) {
+	case bool:
+		return i.ctx.BoolC(v)
+	case *sym.Term:
+		return v
+	}
+	panic(fmt.Sprintf("toBoolTerm: %T", v))
+}
+
+func (i *interpreter) and(a, b value) value {
+	if a == false || b == false {
+		return false
+	}
+	if a == true {
+		return b
+	}
+	if b == true {
+		return a
+	}
+	return simp(i.ctx.And(i.toBoolTerm(a), i.toBoolTerm(b)))
+}
+
+func (i *interpreter) or(a, b value) value {
+	if a == true || b == true {
+		return true
+	}
+	if a == false {
+		return b
+	}
+	if b == false {
+		return a
+	}
+	return simp(i.ctx.Or(i.toBoolTerm(a), i.toBoolTerm(b)))
+}
+
+func (i *interpreter) not(a value) value {
+	if b, ok := a.(bool); ok {
+		return !b
+	}
+	return simp(i.ctx.Not(a.(*sym.Term)))
+}
+
+// ---------------------------------------------------------------- load / store
 
 // load returns the value of type T in *addr.
-func load(T types.Type, addr *value) value {
-	switch T := T.Underlying().(type) {
-	case *types.Struct:
-		v := (*addr).(structure)
+func (i *interpreter) load(T types.Type, addr *value) value {
+	if addr == nil {
+		panic(targetPanic{i.rtErr("invalid memory address or nil pointer dereference")})
+	}
+	i.raceRead(addr)
+	return copyVal(*addr)
+}
+
+// copyVal makes an unaliased copy of aggregate values.
+func copyVal(v value) value {
+	switch v := v.(type) {
+	case structure:
 		a := make(structure, len(v))
-		for i := range a {
-			a[i] = load(T.Field(i).Type(), &v[i])
+		for k := range v {
+			a[k] = copyVal(v[k])
 		}
 		return a
-	case *types.Array:
-		v := (*addr).(array)
+	case array:
 		a := make(array, len(v))
-		for i := range a {
-			a[i] = load(T.Elem(), &v[i])
+		for k := range v {
+			a[k] = copyVal(v[k])
 		}
 		return a
+	}
+	return v
+}
+
+// store stores value v of type T into *addr (recursively for aggregates so that
+// addresses of fields/elements stay valid).
+func (i *interpreter) store(T types.Type, addr *value, v value) {
+	if addr == nil {
+		panic(targetPanic{i.rtErr("invalid memory address or nil pointer dereference")})
+	}
+	i.storeRec(addr, v)
+}
+
+func (i *interpreter) storeRec(addr *value, v value) {
+	switch rhs := v.(type) {
+	case structure:
+		lhs, ok := (*addr).(structure)
+		if !ok {
+			i.setCell(addr, copyVal(v))
+			return
+		}
+		for k := range lhs {
+			i.storeRec(&lhs[k], rhs[k])
+		}
+	case array:
+		lhs, ok := (*addr).(array)
+		if !ok {
+			i.setCell(addr, copyVal(v))
+			return
+		}
+		for k := range lhs {
+			i.storeRec(&lhs[k], rhs[k])
+		}
 	default:
-		return *addr
+		i.setCell(addr, v)
 	}
 }
 
-// store stores value v of type T into *addr.
-func store(T types.Type, addr *value, v value) {
-	switch T := T.Underlying().(type) {
-	case *types.Struct:
-		lhs := (*addr).(structure)
-		rhs := v.(structure)
-		for i := range lhs {
-			store(T.Field(i).Type(), &lhs[i], rhs[i])
-		}
-	case *types.Array:
-		lhs := (*addr).(array)
-		rhs := v.(array)
-		for i := range lhs {
-			store(T.Elem(), &lhs[i], rhs[i])
-		}
-	default:
-		*addr = v
+// setCell is the single point through which memory cells are written.
+func (i *interpreter) setCell(addr *value, v value) {
+	if i.trailOn {
+		i.trail = append(i.trail, trailEnt{addr: addr, old: *addr})
 	}
+	i.raceWrite(addr)
+	*addr = v
 }
 
-// Prints in the style of built-in println.
-// (More or less; in gc println is actually a compiler intrinsic and
-// can distinguish println(1) from println(interface{}(1)).)
+// ---------------------------------------------------------------- printing
+
 func writeValue(buf *bytes.Buffer, v value) {
 	switch v := v.(type) {
 	case nil, bool, int, int8, int16, int32, int64, uint, uint8, uint16, uint32, uint64, uintptr, float32, float64, complex64, complex128, string:
 		fmt.Fprintf(buf, "%v", v)
-
-	case map[value]value:
+	case *sym.Term:
+		s := v.String()
+		if len(s) > 200 {
+			s = s[:200] + "..."
+		}
+		buf.WriteString("<" + s + ">")
+	case *FV:
+		buf.WriteString("<float " + v.V.String() + ">")
+	case sstr:
+		buf.WriteString("\"")
+		for _, b := range v {
+			if c, ok := b.(uint8); ok {
+				buf.WriteByte(c)
+			} else {
+				buf.WriteString("?")
+			}
+		}
+		buf.WriteString("\"")
+	case *omap:
 		buf.WriteString("map[")
 		sep := ""
-		for k, e := range v {
-			buf.WriteString(sep)
-			sep = " "
-			writeValue(buf, k)
-			buf.WriteString(":")
-			writeValue(buf, e)
-		}
-		buf.WriteString("]")
-
-	case *hashmap:
-		buf.WriteString("map[")
-		sep := " "
-		for _, e := range v.entries() {
-			for e != nil {
+		if v != nil {
+			for _, e := range v.ents {
+				if e.dead {
+					continue
+				}
 				buf.WriteString(sep)
 				sep = " "
-				writeValue(buf, e.key)
+				writeValue(buf, e.k)
 				buf.WriteString(":")
-				writeValue(buf, e.value)
-				e = e.next
+				writeValue(buf, *e.vp)
 			}
 		}
 		buf.WriteString("]")
-
-	case chan value:
-		fmt.Fprintf(buf, "%v", v) // (an address)
-
+	case *channel:
+		fmt.Fprintf(buf, "%p", v)
 	case *value:
 		if v == nil {
 			buf.WriteString("<nil>")
 		} else {
 			fmt.Fprintf(buf, "%p", v)
 		}
-
 	case iface:
 		fmt.Fprintf(buf, "(%s, ", v.t)
 		writeValue(buf, v.v)
 		buf.WriteString(")")
-
 	case structure:
 		buf.WriteString("{")
 		for i, e := range v {
@@ -417,7 +425,6 @@ func writeValue(buf *bytes.Buffer, v value) {
 			writeValue(buf, e)
 		}
 		buf.WriteString("}")
-
 	case array:
 		buf.WriteString("[")
 		for i, e := range v {
@@ -427,7 +434,6 @@ func writeValue(buf *bytes.Buffer, v value) {
 			writeValue(buf, e)
 		}
 		buf.WriteString("]")
-
 	case []value:
 		buf.WriteString("[")
 		for i, e := range v {
@@ -437,15 +443,9 @@ func writeValue(buf *bytes.Buffer, v value) {
 			writeValue(buf, e)
 		}
 		buf.WriteString("]")
-
 	case *ssa.Function, *ssa.Builtin, *closure:
-		fmt.Fprintf(buf, "%p", v) // (an address)
-
-	case rtype:
-		buf.WriteString(v.t.String())
-
+		fmt.Fprintf(buf, "%p", v)
 	case tuple:
-		// Unreachable in well-formed Go programs
 		buf.WriteString("(")
 		for i, e := range v {
 			if i > 0 {
@@ -454,71 +454,73 @@ func writeValue(buf *bytes.Buffer, v value) {
 			writeValue(buf, e)
 		}
 		buf.WriteString(")")
-
 	default:
 		fmt.Fprintf(buf, "<%T>", v)
 	}
 }
 
-// Implements printing of Go values in the style of built-in println.
 func toString(v value) string {
 	var b bytes.Buffer
 	writeValue(&b, v)
 	return b.String()
 }
 
-// ------------------------------------------------------------------------
-// Iterators
+// ---------------------------------------------------------------- iterators
 
 type stringIter struct {
-	*strings.Reader
-	i int
+	i   *interpreter
+	b   []value
+	pos int
 }
 
 func (it *stringIter) next() tuple {
 	okv := make(tuple, 3)
-	ch, n, err := it.ReadRune()
-	ok := err != io.EOF
-	okv[0] = ok
-	if ok {
-		okv[1] = it.i
-		okv[2] = ch
+	if it.pos >= len(it.b) {
+		okv[0] = false
+		return okv
 	}
-	it.i += n
+	okv[0] = true
+	okv[1] = it.pos
+	r, n := it.i.decodeRune(it.b[it.pos:])
+	okv[2] = r
+	it.pos += n
 	return okv
 }
 
-type mapIter struct {
-	iter *reflect.MapIter
-	ok   bool
-}
-
-func (it *mapIter) next() tuple {
-	it.ok = it.iter.Next()
-	if !it.ok {
-		return []value{false, nil, nil}
-	}
-	k, v := it.iter.Key().Interface(), it.iter.Value().Interface()
-	return []value{true, k, v}
-}
-
-type hashmapIter struct {
-	iter *reflect.MapIter
-	ok   bool
-	cur  *entry
-}
-
-func (it *hashmapIter) next() tuple {
-	for {
-		if it.cur != nil {
-			k, v := it.cur.key, it.cur.value
-			it.cur = it.cur.next
-			return []value{true, k, v}
+// decodeRune decodes the first rune of b (non-empty). A symbolic leading byte is
+// required to be ASCII: the non-ASCII side is a path decision.
+func (i *interpreter) decodeRune(b []value) (value, int) {
+	switch c := b[0].(type) {
+	case uint8:
+		if c < 0x80 {
+			return int32(c), 1
 		}
-		it.ok = it.iter.Next()
-		if !it.ok {
-			return []value{false, nil, nil}
+		// concrete multi-byte: need concrete continuation bytes
+		n := 1
+		buf := []byte{c}
+		for n < len(b) && n < 4 {
+			cb, ok := b[n].(uint8)
+			if !ok {
+				break
+			}
+			buf = append(buf, cb)
+			n++
 		}
-		it.cur = it.iter.Value().Interface().(*entry)
+		r, size := decodeRuneBytes(buf)
+		return r, size
+	case *sym.Term:
+		isASCII := i.ctx.BvUlt(c, i.ctx.BVC(8, 0x80))
+		if i.decide(isASCII) {
+			return simpInt(i.ctx.ZExt(c, 32)), 1
+		}
+		i.unsupported("rune decoding of a symbolic byte >= 0x80")
 	}
+	panic("decodeRune")
+}
+
+func simpInt(t *sym.Term) value { return t }
+
+func decodeRuneBytes(b []byte) (value, int) {
+	r, n := utf8.DecodeRune(b)
+	return int32(r), n
 }
